@@ -34,7 +34,7 @@ SHARD_SIZE = 6
 
 
 def budget(tier):
-    return 128 if tier == "quick" else 3000
+    return 112 if tier == "quick" else 3000
 
 
 # ----------------------------------------------------------------------------------
@@ -209,7 +209,7 @@ def case(ctx):
 
     rng = ctx.rng
     kind = rng.choice("SSSSUCCDDV")
-    curved = rng.random() < 0.35
+    curved = rng.random() < 0.25
     num = None if curved else rng.choice(["int", "frac", "float"])
     size = rng.choice([1.0, 10.0, 10.0, 100.0])
     center = (rng.randint(-20, 20), rng.randint(-20, 20))
